@@ -52,6 +52,21 @@ def corr_lr(ctx, res, stmts):
         t0 = time.time()
         mt = ctx.model.map(cmds)
         log("  lr model %.1fs" % (time.time() - t0))
+        if silent:
+            ctx.silent_perr = {stmts[i]: any(e[0] == "perr" for e in it[i]["ok"]["events"]) for i in range(len(stmts)) if "ok" in it[i]}
+        else:
+            # the property on the implementation alone: a statement on which the silent parser met a syntax
+            # error (p_error was called) must raise DDLParserError when silent=False, and only such statements
+            for i, s in enumerate(stmts):
+                if s not in ctx.silent_perr:
+                    continue
+                a = it[i]
+                if ctx.silent_perr[s] and "ok" in a:
+                    res.violation("input", "the grammar rejects this statement (p_error was called in silent mode) but silent=False did not raise",
+                                  statement=s, oracle="rejected_raises")
+                if not ctx.silent_perr[s] and a.get("raise") == "DDLParserError":
+                    res.violation("input", "silent mode parses this statement without a syntax error but silent=False raised DDLParserError",
+                                  statement=s, oracle="accepted_never_raises")
         for i, b in zip(idx, mt):
             a, s = it[i], stmts[i]
             io, mo = impl_outcome(a), model_outcome(b)
@@ -183,6 +198,12 @@ def run(ctx, res):
 
 
 def replay(ctx, payload):
+    if payload.get("oracle") in ("rejected_raises", "accepted_never_raises"):
+        s = payload["statement"]
+        a = ctx.impl.one({"op": "trace", "s": s, "ctor": {"silent": True}})
+        b = ctx.impl.one({"op": "trace", "s": s, "ctor": {"silent": False}})
+        perr = "ok" in a and any(e[0] == "perr" for e in a["ok"]["events"])
+        return (perr and "ok" in b) or ((not perr) and b.get("raise") == "DDLParserError")
     if "ddl" in payload and payload.get("oracle") in ("lockstep", "unsupported_neutral", "unsupported_raises", "unsupported_none", "filtered"):
         r = Result("C16")
         v = check_lockstep(ctx, payload["ddl"])
